@@ -25,6 +25,7 @@ Definition ref_stmt (c : cid) (t : rst) (x : stmt) : rst :=
   match x with
   | SDef f decl d => ref_def c t f decl d
   | SDefRt f decl d => ref_def c t f decl d          (* where a function is created makes no difference to the property *)
+  | SDefSt f decl d => ref_def c t f decl d          (* nor does it matter how the names are spread over decorators *)
   | SDel f =>
       mk_rst (filter (fun r => negb (N.eqb (r_ctx r) c && N.eqb (r_name r) f)) (t_live t)) (t_files t) (t_next t)
   end.
